@@ -53,6 +53,51 @@ Definition kcase_model_ok (c : kcase) : bool :=
 Definition kcase_prop_ok (c : kcase) : bool :=
   k_indep c && leaf_valid (k_ret c) (k_cname c) (k_is_ip c) (k_now c).
 
+(* ---------------------------------------------------------------- 2b. histories on the real cache
+   A sequence of operations on ONE real cache (verif hook): Poke = store a certificate of our making under a key,
+   Evict = remove a key, Call = the real cert(name) at time now.  The model is the sequential reading of the LTS of
+   Concurrent.v on the concrete leaf view: a Call is Get; Check; (Create; Add).  Observed per Call: the returned
+   leaf and whether it is byte-identical to what the cache held. *)
+Inductive qop :=
+| QPoke (key : str) (c : leaf)
+| QEvict (key : str)
+| QCall (name cname : str) (is_ip : bool) (now : Z) (ret : leaf) (reused : bool) (indep : bool).
+Record qcase := { q_v : Z; q_slack : Z; q_ops : list qop }.
+
+Fixpoint q_lookup (key : str) (l : list (str * leaf)) : option leaf :=
+  match l with
+  | [] => None
+  | (k, c) :: r => if str_eqb k key then Some c else q_lookup key r
+  end.
+Definition q_remove (key : str) (l : list (str * leaf)) : list (str * leaf) :=
+  filter (fun e => negb (str_eqb (fst e) key)) l.
+
+Definition leaf_agrees (slack : Z) (m o : leaf) : bool :=
+  strs_eqb (lf_dns m) (lf_dns o) && strs_eqb (lf_ips m) (lf_ips o) && Bool.eqb (lf_chain_ok m) (lf_chain_ok o) &&
+  near slack (lf_nb m) (lf_nb o) && near slack (lf_na m) (lf_na o).
+
+Fixpoint q_model_ok (v slack : Z) (cache : list (str * leaf)) (ops : list qop) : bool :=
+  match ops with
+  | [] => true
+  | QPoke key c :: r => q_model_ok v slack ((key, c) :: q_remove key cache) r
+  | QEvict key :: r => q_model_ok v slack (q_remove key cache) r
+  | QCall name cname is_ip now ret reused _ :: r =>
+      let key := strip_port name in
+      let '(m, mre) := cert_lookup (q_lookup key cache) cname is_ip now v in
+      Bool.eqb mre reused && leaf_agrees slack m ret &&
+      (* what the cache holds afterwards is what was RETURNED (so that later calls see the implementation's leaf) *)
+      q_model_ok v slack (if mre then cache else (key, ret) :: q_remove key cache) r
+  end.
+Definition qcase_model_ok (c : qcase) : bool := q_model_ok (q_v c) (q_slack c) [] (q_ops c).
+
+Fixpoint q_prop_ok (ops : list qop) : bool :=
+  match ops with
+  | [] => true
+  | QCall _ cname is_ip now ret _ indep :: r => indep && leaf_valid ret cname is_ip now && q_prop_ok r
+  | _ :: r => q_prop_ok r
+  end.
+Definition qcase_prop_ok (c : qcase) : bool := q_prop_ok (q_ops c).
+
 (* ---------------------------------------------------------------- 3. handshakes through the real proxy
    CONNECT h_auth, then a TLS ClientHello with SNI h_sni ("" = none).  h_asked = the name the client
    verifies (SNI, else the CONNECT host; canonical IP text).  h_leaf = the leaf presented (None = no
